@@ -4,6 +4,7 @@ import (
 	"fmt"
 	"go/token"
 	"go/types"
+	"math"
 	"strings"
 
 	"golang.org/x/tools/go/ssa"
@@ -11,6 +12,7 @@ import (
 	"rtcpverif/bits"
 	"rtcpverif/core"
 	"rtcpverif/num"
+	"rtcpverif/pe"
 )
 
 func init() { register("C14", "other", checkC14) }
@@ -19,7 +21,7 @@ func checkC14(c *Ctx) {
 	r := c.Rep
 	p := c.Prog
 	r.Explain = "The numeric content of this property (exact mantissa x 2^exponent decoding, largest-representable encoding, monotonicity, saturation) is IEEE-754 arithmetic and is NOT decided: no engine here models floating point. Its integer/structural clauses are: NEG - every nil-error return of MarshalTo is dominated by the false edge of a test `bitrate < 0` on the (clamped) receiver bitrate (SSA dominator conditions); EXP - at every nil-error return the exponent that was shifted into octet 17 is entailed below 64 (numeric engine; the conversion byte(exp<<2) is C08's obligation as well); PACK - the mantissa bits OR-ed into octet 17 next to the exponent are entailed <= 3, using the one piece of floating-point reasoning the engine has: an upper bound of a float value learned from a comparison with a constant on a branch (here the exit of `for bitrate >= 1<<18`), carried through float conversions, math.Floor and the conversion to an integer (NaN is outside the model); NORM - on the decode side the loop that left-normalises the mantissa (doubling it, decrementing the exponent) can be left only when bit 23, the implicit leading bit, is set (CFG exit edges); CNT-ENC - octet 16 of the encoding is the low 8 bits of len(SSRCs) (bit-provenance map) and a nil-error return entails len(SSRCs) <= 255; CNT-DEC - at every nil-error return of Unmarshal the number of decoded SSRCs equals the count octet buf[16] and the frame length 20 + 4*count (numeric engine)."
-	r.RuleText = "C14-NEG, C14-EXP, C14-PACK, C14-NORM, C14-CNT-ENC, C14-CNT-DEC."
+	r.RuleText = "C14-NEG, C14-EXP, C14-PACK, C14-NORM, C14-CNT-ENC, C14-CNT-DEC, C14-ZERO (a zero mantissa decodes to the bitrate 0, for four exponents)."
 	r.Trusted = []string{"go/ssa", "checker/num", "checker/bits"}
 	r.Assume = []string{"decoder receiver is a zero value"}
 	r.NotCov("decode(mantissa, exponent) = mantissa x 2^exponent for all 2^24 pairs; encode(x) = largest representable value <= x; monotonicity; saturation at 0x3FFFF x 2^63; the mantissa/exponent bit packing of octets 17..19 — all float32 arithmetic (math.Floor, division by two, Float32frombits)")
@@ -314,4 +316,76 @@ func checkC14(c *Ctx) {
 	}
 	r.Check(n2 > 0 && ok2 == n2, "C14-CNT-DEC", "(*ReceiverEstimatedMaximumBitrate).Unmarshal/decoded-count-equals-count-octet", p.Pos(un.Pos()),
 		fmt.Sprintf("len(p.SSRCs) = int(buf[16]) entailed at all %d nil-error return(s)", n2), det)
+	c14Zero(c)
+}
+
+// c14Zero (rule C14-ZERO): a REMB whose mantissa field is zero carries the bitrate 0 x 2^exp = 0. The decoder
+// is evaluated by the conditional constant propagator on all packets of 20 octets with the REMB identifier,
+// no SSRC, a zero mantissa and a given exponent (every other octet arbitrary); the float it stores is followed
+// as its bit pattern through math.Float32frombits. A definite non-zero pattern is a wrong decoding of every
+// such packet; an undetermined value decides nothing.
+func c14Zero(c *Ctx) {
+	r := c.Rep
+	p := c.Prog
+	fn := p.Func("*ReceiverEstimatedMaximumBitrate.Unmarshal")
+	named := p.Named("ReceiverEstimatedMaximumBitrate")
+	if fn == nil || named == nil {
+		r.Fatalf("unresolved anchor: (*ReceiverEstimatedMaximumBitrate).Unmarshal")
+		return
+	}
+	bi := structFieldIndex(named, "Bitrate")
+	if bi < 0 {
+		r.Fatalf("unresolved anchor: ReceiverEstimatedMaximumBitrate.Bitrate")
+		return
+	}
+	st := named.Underlying().(*types.Struct)
+	var failing []string
+	var dets []string
+	undecided := ""
+	exps := []int{0, 1, 47, 63}
+	for _, e := range exps {
+		m := newPE(c)
+		raw := m.NewObj("raw", types.NewArray(types.Typ[types.Byte], 20), false)
+		cells := map[int]int{0: 0x8F, 1: 206, 2: 0, 3: 4, 8: 0, 9: 0, 10: 0, 11: 0, 12: 'R', 13: 'E', 14: 'M', 15: 'B', 16: 0, 17: e << 2, 18: 0, 19: 0}
+		for i, v := range cells {
+			m.SetCell(raw, fmt.Sprintf("[%d]", i), pe.IntV(int64(v)))
+		}
+		ln := pe.IntV(20)
+		ro := m.NewObj("recv", named, true)
+		var res *pe.Result
+		if msg := guarded(func() {
+			res = runPE(c, m, fn, []pe.Val{{K: pe.Addr, Obj: ro}, {K: pe.Slice, Obj: raw, Off: 0, Len: &ln}})
+		}); msg != "" {
+			undecided = "analysis panic: " + msg
+			continue
+		}
+		n := 0
+		for _, rs := range res.Returns {
+			if rs.Vals[0].K == pe.NonNil {
+				continue
+			}
+			n++
+			got := rs.Load(pe.Val{K: pe.Addr, Obj: ro, Path: fmt.Sprintf(".f%d", bi)}, st.Field(bi).Type())
+			if got.K == pe.Int && got.S == "float32bits" && got.I != 0 {
+				failing = append(failing, fmt.Sprint(e))
+				dets = append(dets, fmt.Sprintf("exponent %d with a zero mantissa decodes to the float with bits %#08x (%g) instead of 0", e, got.I, math.Float32frombits(uint32(got.I))))
+				break
+			}
+		}
+		if n == 0 {
+			undecided = fmt.Sprintf("no successful return reached for exponent %d", e)
+		}
+	}
+	key := "(*ReceiverEstimatedMaximumBitrate).Unmarshal/zero-mantissa-decodes-to-zero"
+	if len(failing) > 0 {
+		key += "[exponents " + strings.Join(failing, ",") + " decode to a non-zero bitrate]"
+	}
+	switch {
+	case len(failing) > 0:
+		r.Bad("C14-ZERO", key, p.Pos(fn.Pos()), strings.Join(dets, "; "))
+	case undecided != "":
+		r.Unk("C14-ZERO", key, p.Pos(fn.Pos()), undecided)
+	default:
+		r.Ok("C14-ZERO", key, p.Pos(fn.Pos()), fmt.Sprintf("for the exponents %v a zero mantissa is not decoded to a definite non-zero bitrate", exps))
+	}
 }
